@@ -586,6 +586,14 @@ def rule_text(ctx):
                             isinstance(e.elts[0], ast.Constant) and \
                             isinstance(e.elts[1], ast.Name):
                         text[e.elts[1].id] = e.elts[0].value
+    # ... or as rows ('key', parameter) of a table the text is built from
+    for node in prog._iter_scope(fi.node):
+        if isinstance(node, ast.Tuple) and len(node.elts) == 2 and \
+                isinstance(node.elts[0], ast.Constant) and \
+                isinstance(node.elts[0].value, str) and \
+                '%' not in node.elts[0].value and \
+                isinstance(node.elts[1], ast.Name):
+            text.setdefault(node.elts[1].id, node.elts[0].value)
     for prm, key in spec_keys.items():
         ctx.ob('C12.D6', fi.qualname, 'text-key:%s' % prm,
                text.get(prm) == key,
@@ -603,6 +611,16 @@ def rule_text(ctx):
             if isinstance(node, ast.For) and isinstance(node.iter, ast.Name) \
                     and node.iter.id == param:
                 for n in ast.walk(node):
+                    if isinstance(n, ast.BinOp) and \
+                            isinstance(n.op, ast.Mod) and \
+                            isinstance(n.left, ast.Constant) and \
+                            isinstance(n.left.value, str):
+                        found.add(n.left.value)
+            if isinstance(node, (ast.ListComp, ast.GeneratorExp)) and \
+                    len(node.generators) == 1 and \
+                    isinstance(node.generators[0].iter, ast.Name) and \
+                    node.generators[0].iter.id == param:
+                for n in ast.walk(node.elt):
                     if isinstance(n, ast.BinOp) and \
                             isinstance(n.op, ast.Mod) and \
                             isinstance(n.left, ast.Constant) and \
